@@ -1852,6 +1852,9 @@ class UWG(object):
         """
         bld_z = '1A' if self.zone == '1B' else '5B' if self.zone == '5C' else self.zone
         zi = REF_ZONETYPE.index(bld_z)
+        # (customs of one new type share one added row, so that a repeated type + era
+        # replaces the earlier custom instead of being simulated twice)
+        custom_sch_row, custom_bem_row = {}, {}
         # Insert or extend refSchedule matrix
         for sch in self.ref_sch_vector:
             ei = REF_BUILTERA.index(sch.builtera)
@@ -1861,9 +1864,11 @@ class UWG(object):
                       'with custom schedule.'.format(sch.builtera, sch.bldtype))
             except ValueError:
                 # Add new rows based on type index in object
-                ti = len(self.refSchedule)
-                self.refSchedule.append([[None for c in range(16)]
-                                         for r in range(3)])
+                if sch.bldtype not in custom_sch_row:
+                    custom_sch_row[sch.bldtype] = len(self.refSchedule)
+                    self.refSchedule.append([[None for c in range(16)]
+                                             for r in range(3)])
+                ti = custom_sch_row[sch.bldtype]
                 print('Add custom schedule for "{} {}".'.format(
                     sch.builtera, sch.bldtype))
             self.refSchedule[ti][ei][zi] = sch
@@ -1877,9 +1882,11 @@ class UWG(object):
                       'with custom schedule.'.format(bem.builtera, bem.bldtype))
             except ValueError:
                 # Add new rows based on type index in object
-                ti = len(self.refBEM)
-                self.refBEM.append([[None for c in range(16)]
-                                    for r in range(3)])
+                if bem.bldtype not in custom_bem_row:
+                    custom_bem_row[bem.bldtype] = len(self.refBEM)
+                    self.refBEM.append([[None for c in range(16)]
+                                        for r in range(3)])
+                ti = custom_bem_row[bem.bldtype]
                 print('Add custom bem for "{} {}".'.format(
                     bem.builtera, bem.bldtype))
             # copy, so that simulating does not alter the caller's custom BEMDef
